@@ -66,7 +66,7 @@ fn decls(c: &mut Cur, of: &mut OutFile) -> PResult<()> {
             let t = ty(c)?;
             if ["UByte", "UShort", "UInt", "ULong"].contains(&name.as_str()) {
                 of.helper_defs.push(name);
-                of.aux_names.push(format!("unsigned-alias:{}", t.show()));
+                of.aux_names.push(format!("alias:{}={}", of.helper_defs.last().unwrap(), t.show()));
                 continue;
             }
             let opt = OptMark { nullable: matches!(t, TT::Opt(_)), ..Default::default() };
